@@ -98,6 +98,8 @@ def sc_neg(a):
         return -a
     if isinstance(a, bool):
         return -int(a)
+    if type(a).__name__ in ("NegGuarded", "Guarded"):
+        raise Unsupported("negation of a possibly infinite value")
     return -a
 
 
